@@ -233,6 +233,28 @@ Proof.
   cbn [bind] in Hkid. rewrite Hkid. cbn [bind]. reflexivity.
 Qed.
 
+(* owner given as text: the name the text denotes under the origin is the one that is digested *)
+Theorem make_ds_text_eq_rfc text origin owner flags protocol alg key dtype :
+  from_text text origin = Ok owner ->
+  Valid owner -> is_absolute owner = true ->
+  0 <= flags < 65536 -> 0 <= protocol < 256 -> 0 <= alg < 256 -> bytes_ok key ->
+  dtype = 1 \/ dtype = 2 \/ dtype = 4 ->
+  make_ds_text text origin flags protocol alg key dtype =
+  Ok (rfc_ds_input owner flags protocol alg key,
+      (let rdata := u16 flags ++ [protocol; alg] ++ key in
+       if alg =? 1 then rfc_keytag_alg1 rdata else rfc_keytag rdata),
+      alg, dtype).
+Proof.
+  intros Ht Hv Habs Hf Hp Ha Hk Hd. unfold make_ds_text, as_uint, in_range.
+  replace ((0 <=? flags) && (flags <? 65536)) with true by lia.
+  replace ((0 <=? protocol) && (protocol <? 256)) with true by lia.
+  replace ((0 <=? alg) && (alg <? 256)) with true by lia.
+  cbn [bind].
+  replace (negb ((dtype =? 1) || (dtype =? 2) || (dtype =? 4))) with false
+    by (destruct Hd as [->|[->| ->]]; reflexivity).
+  rewrite Ht. cbn [bind]. now apply make_ds_eq_rfc.
+Qed.
+
 (* unsupported digest types are refused before anything is computed *)
 Lemma make_ds_unsupported owner flags protocol alg key dtype :
   0 <= flags < 65536 -> 0 <= protocol < 256 -> 0 <= alg < 256 ->
